@@ -8,6 +8,13 @@ import (
 )
 
 func appendStackTrace(e *object.PanErr, src *ast.Source) *object.PanErr {
+	// NOTE: `_` (BuiltInNotImplemented) is one object shared by all evaluations.
+	// copy it, otherwise stack traces of previous programs accumulate in it
+	if e == object.BuiltInNotImplemented {
+		copied := *e
+		e = &copied
+	}
+
 	var out bytes.Buffer
 
 	stackTrace := parseSrc(src)
